@@ -76,10 +76,11 @@ type Sched struct {
 	// NoPreempt, when set, reports whether a pending op may NOT be preempted (thread-local op).
 	NoPreempt func(kind string, obj interface{}) bool
 
-	chans   map[unsafe.Pointer]*chanState
-	objIDs  map[interface{}]int
-	objHash map[interface{}]uint64
-	stateFn func() string
+	chans       map[unsafe.Pointer]*chanState
+	objIDs      map[interface{}]int
+	objHash     map[interface{}]uint64
+	stateFn     func() string
+	blockedSnap []Blocked
 	// Canonical orders the enabled threads by ascending id regardless of who is running and makes
 	// every alternative free (for unbounded searches; lets HB-equivalent interleavings share states).
 	Canonical bool
@@ -214,7 +215,6 @@ func (s *Sched) Point(kind string, obj interface{}, enabled func() bool) {
 	s.reschedule(me)
 	me.enabled = nil
 	if s.aborting {
-		me.kind = ""
 		runtime.Goexit()
 	}
 	s.fold(me, kind, obj)
@@ -266,6 +266,7 @@ func (s *Sched) reschedule(me *thread) {
 			} else {
 				s.Deadlock = true
 				s.DeadlockInfo = s.describeBlocked()
+				s.blockedSnap = s.liveBlocked()
 			}
 		}
 		s.abortFrom(me)
@@ -410,7 +411,7 @@ func Run(c *explore.Ctx, opt Options, body func()) *Sched {
 	}
 	s := &Sched{ctx: c, horizon: opt.Horizon, fin: make(chan struct{}), Drain: opt.Drain, KeepTrace: opt.KeepTrace,
 		NoPreempt: opt.NoPreempt, Canonical: opt.Canonical,
-		chans:     map[unsafe.Pointer]*chanState{}, objIDs: map[interface{}]int{}, objHash: map[interface{}]uint64{}}
+		chans: map[unsafe.Pointer]*chanState{}, objIDs: map[interface{}]int{}, objHash: map[interface{}]uint64{}}
 	resetPools()
 	active = s
 	t0 := s.spawn(body, "main")
@@ -457,3 +458,26 @@ func (s *Sched) Steps() int { return s.steps }
 
 // Aborting reports whether the execution is being torn down (shim operations are no-ops).
 func (s *Sched) Aborting() bool { return s.aborting }
+
+// CurID returns the id of the running managed thread (0 = the Run body).
+func (s *Sched) CurID() int { return s.cur.id }
+
+// Blocked describes one unfinished thread at the end of an execution.
+type Blocked struct {
+	Thread int
+	Kind   string
+	Obj    interface{}
+}
+
+// BlockedThreads lists the threads that were blocked when the deadlock was detected.
+func (s *Sched) BlockedThreads() []Blocked { return s.blockedSnap }
+
+func (s *Sched) liveBlocked() []Blocked {
+	var out []Blocked
+	for _, t := range s.threads {
+		if !t.done {
+			out = append(out, Blocked{t.id, t.kind, t.obj})
+		}
+	}
+	return out
+}
